@@ -187,6 +187,8 @@ impl FlowSource for MemTableSource {
         output: BatchSender,
         ctx: Arc<FlowContext>,
     ) -> Result<(), FlowOperatorError> {
+        #[cfg(feature = "sim-hooks")]
+        crate::sim_hooks::gate("read.mem.start", String::new()).await;
         let columns = self.resolve_columns().await?;
         let schema = Arc::new(
             BatchSchema::new(columns.clone())
